@@ -427,6 +427,50 @@ def on_every_path(fn, call_texts):
     return True
 
 
+def rule_every_neighbour_contributes(chk, tree):
+    """the interpolated value is a sum over every neighbour, followed (for some methods) by a normalisation or a small solve: in the pair hooks of the interpolation equations
+    no store into a destination array stands under a test on particle data (a neighbour with a small density, a small weight ... still contributes what the formula says), and
+    in post_loop a store / a call of the solver may be conditional only on the quantity it divides by (the accumulated weight of an empty neighbourhood) - not on the size
+    of the sum that is being interpolated"""
+    n = 0
+    for cls in [c for c in M.classes(tree) if any(M.dotted(b).split('.')[-1] == 'Equation' for b in c.bases)]:
+        for hname in ('loop', 'loop_all', 'post_loop'):
+            fn = M.methods(cls).get(hname)
+            if fn is None:
+                continue
+            M.set_parents(fn)
+            arrays = set(a.arg for a in fn.args.args if a.arg.startswith(('d_', 's_')))
+            acts = [a for a in ast.walk(fn) if (isinstance(a, (ast.Assign, ast.AugAssign)) and isinstance((a.targets[0] if isinstance(a, ast.Assign) else a.target), ast.Subscript)
+                                                and U((a.targets[0] if isinstance(a, ast.Assign) else a.target).value).startswith('d_')) or
+                    (isinstance(a, ast.Expr) and isinstance(a.value, ast.Call) and M.call_name(a.value) in ('gj_solve', 'augmented_matrix'))]
+            for a in acts:
+                n += 1
+                cur, bad = a, None
+                while getattr(cur, 'parent', None) is not None and cur.parent is not fn:
+                    par = cur.parent
+                    if isinstance(par, ast.If) and cur is not par.test:
+                        subj = set(U(x) for x in ast.walk(par.test) if isinstance(x, ast.Subscript) and isinstance(x.value, ast.Name) and x.value.id in arrays)
+                        if subj:
+                            divisors = set()
+                            for st_ in par.body:
+                                for d_ in ast.walk(st_):
+                                    if isinstance(d_, ast.BinOp) and isinstance(d_.op, ast.Div):
+                                        divisors |= set(U(x) for x in ast.walk(d_.right) if isinstance(x, ast.Subscript))
+                                    if isinstance(d_, ast.AugAssign) and isinstance(d_.op, ast.Div):
+                                        divisors |= set(U(x) for x in ast.walk(d_.value) if isinstance(x, ast.Subscript))
+                            normaliser = hname == 'post_loop' and subj <= divisors
+                            if not normaliser:
+                                bad = (par, sorted(subj))
+                    cur = par
+                if bad is not None:
+                    chk.violated('every-neighbour-contributes', '%s.%s@%d' % (cls.name, hname, getattr(a, 'lineno', 0)), node=bad[0], file=INT, func='%s.%s' % (cls.name, hname),
+                                 detail='`%s` happens only if `%s`: %s - the documented sum / solve is skipped for particles whose data fall below an absolute threshold (densities or '
+                                        'fields in small units), the value comes back as 0' % (U(a)[:60], U(bad[0].test), 'a test on particle data in a pair hook' if hname != 'post_loop' else
+                                                                                                 'a test on something other than the divisor of the guarded statements'))
+    chk.floor('stores / solves in interpolation equation hooks', n, 12)
+    chk.holds('every-neighbour-contributes', 'scanned', file=INT, func='interpolation equations', line=0, detail='%d stores / solves scanned' % n)
+
+
 def rule_grid_dimensions(chk, tree):
     """the dimension the interpolation works in (kernel normalisation, neighbour search, size of the order1 system) is read off the automatic grid: the number of directions
     that get more than one point.  A direction counts from a relative extent of 1e-4 on (thin slabs resolved by particles are still interpolated across); the test that gives a
@@ -544,7 +588,7 @@ def rule_rebinding(chk, tree):
     sd = M.find_func(icls, 'set_domain')
     gsd = C.build_cfg(sd)
     sip_calls = [n.id for n in gsd.nodes if n.ast is not None and isinstance(n.ast, ast.Expr) and isinstance(n.ast.value, ast.Call) and M.call_name(n.ast.value) == 'self.set_interpolation_points'
-                 and len(n.ast.value.args) + len(n.ast.value.keywords) == 3]
+                 and (len(n.ast.value.args) + len(n.ast.value.keywords) == 3 or any(isinstance(a_, ast.Starred) for a_ in n.ast.value.args))]
     chk.decide(bool(sip_calls) and gsd.must_pass(gsd.entry, gsd.exit, sip_calls), 'rebinding', 'set_domain', node=sd, file=INT, func='set_domain',
                detail_bad='set_domain does not go through set_interpolation_points', detail_ok='delegates')
     upd = M.find_func(icls, 'update')
@@ -881,6 +925,7 @@ def main(chk):
     chk.floor("model runs of _create_particle_array", rule_target_model(chk, tree), 30)
     rule_rebinding(chk, tree)
     rule_grid_dimensions(chk, tree)
+    rule_every_neighbour_contributes(chk, tree)
     # the evaluator the interpolator runs on (anchored file acceleration_eval.py): each equation's initialise / post-loop code once per destination however many sources it has
     # (a normalising post_loop applied once per source divides twice), and the destination loop bounds are the array's current size (rules shared with C03)
     import importlib.util
